@@ -117,10 +117,18 @@ def attribute(res, env_seed, pool, max_steps, K):
     return None, {}
 
 
+DEVICE_FIRST_INPUT = {"l", "s", "ls", "ss", "lr", "get", "put", "getd", "putd", "clr", "clrd", "sdse", "sdns",
+                      "bdse", "bdns", "brdse", "brdns", "bdseal", "bdnsal", "rmap", "bdnvl", "bdnvs"}
+
+
 def clobber_signature(c):
     """relation between the scope that wrote the register last and the scope that expected its own
     value there.  `scope` = source function of the instruction, `region` = emitted function it sits in;
     they differ exactly for inlined code."""
+    op = c.get("text", "").split(" ")[0]
+    if c.get("input_index") == 0 and op in DEVICE_FIRST_INPUT:
+        # the clobbered operand is the device / reference-id operand of a device instruction
+        return "C04:clobber:device-id-capture"
     rs, ws = c.get("reader_scope") or "", c.get("writer_scope") or ""
     rr, wr = c.get("reader_region") or "", c.get("writer_region") or ""
     if rs == ws:
